@@ -326,7 +326,8 @@ def run(ck):
         cid = cfg_id(b)
         ops = gen(b, ck.rng, quick)
         if b in ("v2", "v512"):
-            ops += [{"op": "reset"}] + gen_vec("avx2", ck.rng, quick)
+            from checks import c11          # the AVX2 kernels at their documented pre-bounds (raw lanes): exactness there is C01's too
+            ops += [{"op": "reset"}] + gen_vec("avx2", ck.rng, quick) + [{"op": "reset"}] + c11.gen_avx2_bounds(ck.rng, quick)
         if b == "v512":
             ops += [{"op": "reset"}] + gen_vec("ifma", ck.rng, quick)
         sp = os.path.join(ck.workdir, cid + ".script.ndjson")
